@@ -35,7 +35,7 @@ def run(tier):
         for gm in ('Gen_Mods', 'Gen_Ranges'):
             g, st = flow.generate(work, gm, gm + '.cfg')
             for s in st:
-                cases.append({'api': 'datetime', 'text': s['c']['text'], 'culture': s['c']['culture'], 'ref': s['c']['ref'], 'src': 'generated:' + gm})
+                cases.append({'api': 'datetime', 'text': d.unescape(s['c']['text']), 'culture': s['c']['culture'], 'ref': s['c']['ref'], 'src': 'generated:' + gm})
             gstates += g['distinct']
             gtrans += g['generated']
             gens.append({'module': gm, 'cfg': gm + '.cfg', 'distinct_states': g['distinct'], 'cases': len(st)})
